@@ -4,9 +4,10 @@
   mutual structural induction over the bottom-up rewrite, at any depth, including lxml's tail-text rule.
 -/
 import PicoSVG.Model.TreeOps
+import PicoSVG.Model.Cleanup
 
 namespace PicoSVG.ZOrder
-open PicoSVG Node
+open PicoSVG Node Cleanup
 
 mutual
   /-- uids of the elements of a subtree in document order -/
@@ -131,5 +132,45 @@ theorem replace_keeps_document_order (ru : Nat) (t : String) (a : Attrs) (pre po
   | pi => simp [Node.isElem] at he
   | text s => simp [Node.isElem] at he
   | entity => simp [Node.isElem] at he
+
+mutual
+  theorem euids_pass_sublist (P : LocalPass) (n : Node) : (euidsL (rewrite P.f n)).Sublist (euids n) := by
+    cases n with
+    | elem u t a cs =>
+      simp only [rewrite, LocalPass.f]
+      by_cases hd : P.drop t a
+      · simp [hd, euidsL, euids]
+      · simp only [hd, Bool.false_eq_true, if_false, euidsL, euids, List.append_nil]
+        exact (euidsL_pass_sublist P false cs).cons_cons u
+    | comment => simp only [rewrite, LocalPass.f]; split <;> simp [euidsL, euids]
+    | pi => simp only [rewrite, LocalPass.f]; split <;> simp [euidsL, euids]
+    | text s => simp only [rewrite, LocalPass.f]; split <;> simp [euidsL, euids]
+    | entity => simp only [rewrite, LocalPass.f]; split <;> simp [euidsL, euids]
+  theorem euidsL_pass_sublist (P : LocalPass) (b : Bool) (cs : List Node) :
+      (euidsL (rewriteList P.f b cs)).Sublist (euidsL cs) := by
+    cases cs with
+    | nil => simp [rewriteList, euidsL]
+    | cons c cs =>
+      have key : ∀ b', (euidsL (rewrite P.f c ++ rewriteList P.f b' cs)).Sublist (euids c ++ euidsL cs) := by
+        intro b'
+        rw [euidsL_append]
+        exact (euids_pass_sublist P c).append (euidsL_pass_sublist P b' cs)
+      cases b with
+      | false => simp only [rewriteList, euidsL]; exact key _
+      | true =>
+        cases c with
+        | text s => simp only [rewriteList, euidsL, euids, List.nil_append]; exact euidsL_pass_sublist P false cs
+        | elem u t a k => simp only [rewriteList, euidsL]; exact key _
+        | comment => simp only [rewriteList, euidsL]; exact key _
+        | pi => simp only [rewriteList, euidsL]; exact key _
+        | entity => simp only [rewriteList, euidsL]; exact key _
+end
+
+/-- the discard passes only remove: what remains keeps its document order -/
+theorem pass_keeps_order (P : LocalPass) (u : Nat) (t : String) (a : Attrs) (cs : List Node) :
+    (euids (rewriteBelow P.f (.elem u t a cs))).Sublist (euids (.elem u t a cs)) := by
+  simp only [rewriteBelow, Node.children, Node.setChildren, euids]
+  exact (euidsL_pass_sublist P false cs).cons_cons u
+
 
 end PicoSVG.ZOrder
